@@ -102,7 +102,11 @@ def dec_blocks(s):
 def _lean_char(c):
     if len(c) != 1:
         raise ValueError(f"expected a single character, got {c!r}")
-    esc = {"'": "\\'", "\\": "\\\\", "\n": "\\n", "\t": "\\t", "\r": "\\r"}
+    if c == '"':
+        return "q2"
+    if c == "'":
+        return "q1"
+    esc = {"\\": "\\\\", "\n": "\\n", "\t": "\\t", "\r": "\\r"}
     if c in esc:
         return "'" + esc[c] + "'"
     if not (32 <= ord(c) < 127):
@@ -141,8 +145,12 @@ def _str_tuple(n):
 
 
 def _is_sub0(n, var=None):
-    return (isinstance(n, ast.Subscript) and isinstance(n.slice, ast.Constant) and n.slice.value == 0
-            and isinstance(n.value, ast.Name) and (var is None or n.value.id == var))
+    if not (isinstance(n, ast.Subscript) and isinstance(n.slice, ast.Constant) and n.slice.value == 0):
+        return False
+    if not isinstance(n.value, ast.Name):
+        # e.g. line.lstrip()[0]: a first-character test on a derived string is not what the model has
+        raise ValueError("first-character test on a derived string: " + ast.unparse(n))
+    return var is None or n.value.id == var
 
 
 def _cond(n, var):
@@ -465,14 +473,14 @@ def table_case(table, kind="table", **extra):
 
 
 # ---------------------------------------------------------------- reader texts
-def foreign_text(rng):
+def foreign_text(rng, header=True, max_cats=3):
     """CIF text as other writers produce it (rows split over lines, comments, blank lines, quoting styles)
     plus random damage: exercises the reader functions outside the image of the writer."""
     lines = []
-    if rng.random() < 0.7:
+    if header and rng.random() < 0.7:
         lines.append("data_" + name(rng))
         lines.append("#")
-    for _ in range(rng.randint(1, 3)):
+    for _ in range(rng.randint(1, max_cats)):
         cn = name(rng)
         k = rng.randint(1, 3)
         keys = []
@@ -525,8 +533,10 @@ def foreign_text(rng):
             lines.insert(i, rng.choice(["loop_", ";", "data_zz", "_q.r 1", "#", "", "stray", "'unterminated", "_nodot", "_"]))
         elif r < 0.7:
             lines[i] = lines[i][: rng.randrange(len(lines[i]) + 1)]
-        else:
+        elif r < 0.85:
             lines[i] = rng.choice([" ", "'", '"', ";", "_", "#"]) + lines[i]
+        else:
+            lines.insert(i, rng.choice([" ", "  ", "\t"]) + rng.choice(["#c", "# x y", ";x", "_a.b 1", "data_x", "loop_", "'q' r"]))
     return "\n".join(lines) + ("\n" if rng.random() < 0.9 else "")
 
 
@@ -644,13 +654,18 @@ def cases(rng, tier):
         yield {"kind": "token", "ops": [f"split {enc(split_line(rng))}", f"esc {enc(simple_value(rng))}",
                                         f"esc {enc(good_multiline(rng))}"]}
     # 5. readers on foreign / damaged text
-    for _ in range(250 if quick else 6000):
+    for _ in range(400 if quick else 8000):
         t = foreign_text(rng)
-        yield {"kind": "reader", "ops": [f"parsefile {enc(t)}", f"parseblock {enc(t)}", f"parsecat {enc(t)}"]}
+        tc = foreign_text(rng, header=False, max_cats=1)
+        yield {"kind": "reader", "ops": [f"parsefile {enc(t)}", f"parseblock {enc(t)}", f"parsecat {enc(tc)}",
+                                         f"parseblock {enc(tc)}"]}
     # 5b. category writer alone (error branches: ragged columns)
     for _ in range(40 if quick else 800):
         k = rng.randint(0, 3)
-        cols = [(name(rng), [simple_value(rng) for _ in range(rng.choice([1, 2, 2, 3]))]) for _ in range(k)]
+        keys = []
+        for _ in range(k):
+            keys.append(name(rng, keys))       # a dict has no duplicate keys
+        cols = [(key, [simple_value(rng) for _ in range(rng.choice([1, 2, 2, 3]))]) for key in keys]
         yield {"kind": "sercat", "ops": [f"sercat {enc(name(rng))} {enc_cols(cols)}"]}
     # 6. container histories
     for _ in range(240 if quick else 6000):
@@ -928,6 +943,20 @@ def _container_oracle(case):
     def val(e):
         return int(e[1:]) if e[0] in "PR" else BAD
 
+    binary = kind[0] == "b"
+    fresh = set()          # keys of the container under test whose element was built in memory and never serialised
+
+    def eq_expect(ref, oref, ofresh, quirk):
+        """dict semantics of ==; quirk=True adds the known BinaryCIF behaviour (fresh != read back)."""
+        if set(ref) != set(oref):
+            return False
+        for k in ref:
+            if ref[k] is BAD or oref[k] is BAD:
+                return "DeserializationError"
+            if ref[k] != oref[k] or (quirk and binary and ((k in fresh) != (k in ofresh))):
+                return False
+        return True
+
     cont, ref = None, None
     for op in case["ops"]:
         w = op.split()
@@ -936,6 +965,7 @@ def _container_oracle(case):
             if w[0] == "cnew":
                 ents = _parse_entries(w[2])
                 cont, ref = _container(kind, ents), {k: val(e) for k, e in ents}
+                fresh = {k for k, e in ents if e[0] == "P"}
                 continue
             elif w[0] == "cget":
                 try:
@@ -946,6 +976,7 @@ def _container_oracle(case):
             elif w[0] == "cset":
                 cont[w[1]] = _elem(kind, int(w[2]))
                 ref[w[1]] = int(w[2])
+                fresh.add(w[1])
                 continue
             elif w[0] == "csetraw":
                 if kind[0] == "t":
@@ -959,6 +990,7 @@ def _container_oracle(case):
                 exp = "DeserializationError" if v is BAD else "ok"
                 if v is not BAD:
                     ref[w[1]] = v
+                    fresh.discard(w[1])
             elif w[0] == "cdel":
                 try:
                     del cont[w[1]]
@@ -969,6 +1001,7 @@ def _container_oracle(case):
                     exp = "ValueError"     # documented: at least one column must remain
                 elif w[1] in ref:
                     del ref[w[1]]
+                    fresh.discard(w[1])
                     exp = "ok"
                 else:
                     exp = "KeyError"
@@ -985,20 +1018,15 @@ def _container_oracle(case):
                     got = bool(cont == other)
                 except Exception as e:  # noqa: BLE001
                     got = type(e).__name__
-                if set(ref) != set(oref):
-                    exp = False
-                else:
-                    exp = True
-                    for k in ref:
-                        if ref[k] is BAD or oref[k] is BAD:
-                            exp = "DeserializationError"
-                            break
-                        if ref[k] != oref[k]:
-                            exp = False
-                            break
+                exp = eq_expect(ref, oref, set(), False)
+                if got != exp and binary and got == eq_expect(ref, oref, {k for k, e in ents if e[0] == "P"}, True):
+                    # equal content, but one side was built in memory and never serialised (encoding.pyx)
+                    return [("C06/container/binary/eq-unserialised-encoding",
+                             f"{op} after {case['ops'][:case['ops'].index(op)]!r}: gave {got!r}, a dict gives {exp!r}")]
             elif w[0] == "creparse":
                 try:
                     cont = _reparse(kind, cont)
+                    fresh = set()
                 except Exception as e:  # noqa: BLE001
                     if type(e).__name__ == "SerializationError" and (
                             (kind in ("tcat", "bcat") and len(ref) == 0) or (kind == "bcat" and any(v is BAD for v in ref.values()))):
